@@ -194,7 +194,49 @@ def multi_reaction(c, item):
     c.nontrivial(('multi', tuple(order), tuple(perm)))
 
 
+def shared_dict(c, item):
+    """two (three) mass-action reactions declared with ONE parameter dictionary object p = {'k': ...}: each keeps its own reactants"""
+    from bioscrape.types import Model
+    from bioscrape.simulator import ModelCSimInterface, SafeModelCSimInterface
+    from ..ref import crn
+    how, lists = item
+    p_ = {'k': 0.7}
+    tuples = [(list(r), list(pr), 'massaction', p_) for r, pr in lists]
+    if how == 'constructor':
+        m = Model(species=list(POOL), reactions=tuples, initial_condition_dict={s_: 1 for s_ in POOL})
+    else:
+        m = Model(species=list(POOL), initial_condition_dict={s_: 1 for s_ in POOL})
+        for t in tuples:
+            m.create_reaction(*t)
+        m.py_initialize()
+    rxs = [dict(reactants=list(r), products=list(pr), kind='massaction', k=0.7) for r, pr in lists]
+    sp = dict(species=list(POOL), reactions=rxs, params={}, x0={})
+    SSd = crn.stoich(sp)
+    s2i = m.get_species2index()
+    c.count('states')
+    for route, iface in (('plain', ModelCSimInterface(m)), ('safe', SafeModelCSimInterface(m))):
+        for xs in itertools.product((0, 1, 2, 3), repeat=3):
+            x = dict(zip(POOL, [float(v) for v in xs]))
+            st = np.zeros(3)
+            for sname, i in s2i.items():
+                st[i] = x[sname]
+            for mode in MODES:
+                got = iface.py_verif_compute_propensities(st, 0.0, 2.0, mode)
+                exp = crn.rates(sp, x, mode, 2.0, 0.0, route == 'safe', None, SSd)
+                c.count('evaluations', len(rxs)); c.count('transitions', len(rxs))
+                for j in range(len(rxs)):
+                    if not rel_close(float(got[j]), float(exp[j]), RTOL, 1e-300):
+                        c.violation('C01/shared-parameter-dict/%s/%s' % (mode, route), 'reaction %d (%s ->) declared with a shared parameter dictionary has rate %r at %s, '
+                                    'closed form %r' % (j, rxs[j]['reactants'], float(got[j]), x, float(exp[j])),
+                                    dict(spec=dict(kind='shared', how=how, lists=[[list(a), list(b)] for a, b in lists]), x=x, mode=mode, route=route))
+                        return
+    c.nontrivial(('shared', how, repr(lists)))
+
+
 def run(ctx):
+    sides = [(['A', 'B'], ['C']), (['C'], ['A']), (['A', 'A', 'B'], ['C']), (['B'], []), ([], ['A'])]
+    sh = [(how, list(combo)) for how in ('constructor', 'create_reaction') for k_ in (2, 3) for combo in itertools.permutations(sides, k_)]
+    pmap(shared_dict, sh, ctx, nshards=32)
     perms = list(itertools.permutations(range(6), 4 if ctx.quick else 6))
     if ctx.quick:
         perms = perms[::4]
@@ -204,7 +246,7 @@ def run(ctx):
     ctx.bounds = dict(alphabets=al, models=len(sp), reactant_sequences='all orderings of length 0..%d over A,B,C' % al['maxlen'])
     ctx.rule = ('E2: every reactant sequence of length 0..4 over {A,B,C} (x numeric k / named k / explicit species string) '
                 'and every Hill family x s1 x d x numeric/named, in 2 species declaration orders; each crossed with the full '
-                'state/parameter/volume alphabets in 4 modes x 3 routes (bare propensity, plain interface, safe interface); plus ordered selections of 4 (thorough: all 6) reactions from a 6-reaction menu in one model, every entry of the plain and safe interface loops at every state of {0..3}^3. '
+                'state/parameter/volume alphabets in 4 modes x 3 routes (bare propensity, plain interface, safe interface); plus ordered selections of 4 (thorough: all 6) reactions from a 6-reaction menu in one model, every entry of the plain and safe interface loops at every state of {0..3}^3; and ordered pairs / triples of mass-action reactions declared with one shared parameter dictionary object. '
                 'states = models built; transitions = rate evaluations on the implementation. A case (kind, multiset/hill '
                 'configuration, parameter form, declaration order, mode) is non-trivial when at least one of its points has a '
                 'non-zero closed form that, for repeated reactants, differs from the multiplicity-free form.')
@@ -214,6 +256,8 @@ def run(ctx):
 
 
 def replay(ctx, case):
+    if case['spec'].get('kind') == 'shared':
+        return shared_dict(ctx, (case['spec']['how'], [(a, b) for a, b in case['spec']['lists']]))
     if case['spec'].get('kind') == 'multi':
         return multi_reaction(ctx, (case['spec']['order'], case['spec']['perm']))
     al = alphabets('thorough')
